@@ -7,14 +7,29 @@
 //
 // spec.json: {"namespace": "GoaktVerif.Gen.X", "targets": [ ... ]}
 // target kinds:
-//   {"kind":"func","file":"actor/pid.go","func":"backoffDelay","lean":"backoffDelay"}
-//       whole function; receiver-less or method ("T.m"); params typed from the signature
-//   {"kind":"return_index","file":..,"func":"RoundRobin.Next","lean":"rrIndex",
-//    "binds":[["n","n","uint32"],["len(x.nodes)","len","int"]]}
-//       the index expression e of the (single) `return a[e]` in the function, as a
-//       function of the bound sub-expressions (printed Go form -> Lean name, Go type)
-//   {"kind":"const","file":..,"name":"localQueueCap","lean":"localQueueCap"}
-//       an integer constant (literal or simple constant expression)
+//
+//	{"kind":"func","file":"actor/pid.go","func":"backoffDelay","lean":"backoffDelay"}
+//	    whole function; receiver-less or method ("T.m"); params typed from the signature
+//	{"kind":"return_index","file":..,"func":"RoundRobin.Next","lean":"rrIndex",
+//	 "binds":[["n","n","uint32"],["len(x.nodes)","len","int"]]}
+//	    the index expression e of the (single) `return a[e]` in the function, as a
+//	    function of the bound sub-expressions (printed Go form -> Lean name, Go type)
+//	{"kind":"const","file":..,"name":"localQueueCap","lean":"localQueueCap"}
+//	    an integer constant (literal or simple constant expression)
+//	{"kind":"block","file":..,"func":"router.routeByStrategy","case":"RoundRobinRouting","lean":"rrStep",
+//	 "binds":[..],"fieldvars":[..],"skip":[..],"results":["idx","next"]}
+//	    the body of the switch case whose label list contains the expression `case` (printed Go form),
+//	    as a function of binds/fieldvars/atomics; the result is the tuple of the final values of `results`
+//	{"kind":"if_cond","file":..,"func":"PID.handleRestartDirective","match":"faults > int64(maxRetries)","lean":"budgetExceeded","binds":[..]}
+//	    the condition (with its init statement) of the unique `if` in the function whose printed condition
+//	    contains `match`, as a Bool function of the binds
+//
+// statement subset (func/block): := and = on locals and field variables, op-assign, ++/--, if/else (with an
+// init statement), switch on a tag or tagless (no fallthrough), return of one value or of several (a tuple),
+// var declarations, `for i := a; i < n; i++ {..}` with a straight-line/if body (needs "fuel": the loop
+// becomes a structurally recursive local function over a Nat fuel parameter), and for the expressions
+// listed under "atomics": X.Load(), X.Store(e), X.Inc(), X.Dec(), X.Add(e), `return X.Inc()`.
+// "return_state": true makes every return yield (result, fieldvars.., atomics..).
 package main
 
 import (
@@ -50,6 +65,17 @@ type target struct {
 	FieldVars [][]string `json:"fieldvars"`
 	// ReturnIndex: `return a[e]` yields e (plus the final field values as a tuple).
 	ReturnIndex bool `json:"return_index"`
+	// Atomics: expressions of an atomic integer type treated as mutable state: [goExpr, leanName, goType];
+	// goExpr.Load()/Store(e)/Inc()/Dec()/Add(e) read and write the variable.
+	Atomics [][]string `json:"atomics"`
+	// ReturnState: every return yields (result, fieldvars..., atomics...).
+	ReturnState bool `json:"return_state"`
+	// Case / Results: kind "block". Match: kind "if_cond".
+	Case    string   `json:"case"`
+	Results []string `json:"results"`
+	Match   string   `json:"match"`
+	// Fuel: name of a Nat parameter that bounds `for` loops (added to the signature).
+	Fuel string `json:"fuel"`
 }
 
 type spec struct {
@@ -113,6 +139,96 @@ type env struct {
 	skip   map[string]bool
 	fvars  [][]string
 	retIdx bool
+	// additions
+	atomics  map[string][2]string // go expr -> lean name, go type
+	state    []string             // lean names returned along with the result when retState
+	retState bool
+	retTypes []string // go types of a multi-value result
+	fuel     string
+	loops    int
+}
+
+// atomicCall recognises X.M(args) where X is listed under "atomics".
+func (v *env) atomicCall(e ast.Expr) (name, typ, method string, args []ast.Expr, ok bool) {
+	c, isCall := e.(*ast.CallExpr)
+	if !isCall {
+		return
+	}
+	sel, isSel := c.Fun.(*ast.SelectorExpr)
+	if !isSel {
+		return
+	}
+	a, found := v.atomics[src(sel.X)]
+	if !found {
+		return
+	}
+	return a[0], a[1], sel.Sel.Name, c.Args, true
+}
+
+// atomicUpdate translates X.Store(e) / X.Inc() / X.Dec() / X.Add(e) / X.Sub(e) into the new value of X.
+func (v *env) atomicUpdate(name, typ, method string, args []ast.Expr, where string) string {
+	switch {
+	case method == "Store" && len(args) == 1:
+		r, t := v.expr(args[0], typ)
+		if t != "untyped" && lty(t) != lty(typ) {
+			die("type mismatch in %s", where)
+		}
+		return r
+	case method == "Inc" && len(args) == 0:
+		return fmt.Sprintf("(%s + %s)", name, litOf("1", typ))
+	case method == "Dec" && len(args) == 0:
+		return fmt.Sprintf("(%s - %s)", name, litOf("1", typ))
+	case (method == "Add" || method == "Sub") && len(args) == 1:
+		r, t := v.expr(args[0], typ)
+		if t != "untyped" && lty(t) != lty(typ) {
+			die("type mismatch in %s", where)
+		}
+		op := "+"
+		if method == "Sub" {
+			op = "-"
+		}
+		return fmt.Sprintf("(%s %s %s)", name, op, r)
+	}
+	die("unsupported atomic operation %s", where)
+	return ""
+}
+
+func (v *env) withState(r string) string {
+	if !v.retState {
+		return r
+	}
+	return "(" + strings.Join(append([]string{r}, v.state...), ", ") + ")"
+}
+
+// assigned collects the names assigned (not declared) inside stmts.
+func assigned(stmts []ast.Stmt, v *env, out map[string]bool) {
+	for _, s := range stmts {
+		ast.Inspect(s, func(n ast.Node) bool {
+			switch x := n.(type) {
+			case *ast.AssignStmt:
+				if x.Tok != token.DEFINE {
+					for _, l := range x.Lhs {
+						if id, ok := l.(*ast.Ident); ok {
+							out[id.Name] = true
+						} else if b, ok := v.binds[src(l)]; ok {
+							out[b[0]] = true
+						}
+					}
+				}
+			case *ast.IncDecStmt:
+				if id, ok := x.X.(*ast.Ident); ok {
+					out[id.Name] = true
+				}
+			case *ast.ExprStmt:
+				if name, _, _, _, ok := v.atomicCall(x.X); ok {
+					out[name] = true
+				}
+			case *ast.ReturnStmt, *ast.BranchStmt:
+				die("return/break/continue inside a for loop is not supported")
+			}
+			return true
+		})
+	}
 }
 
 type constInfo struct {
@@ -235,6 +351,20 @@ func (v *env) expr(e ast.Expr, want string) (string, string) {
 		}
 		die("unsupported unary %s", x.Op)
 	case *ast.CallExpr:
+		if name, typ, method, args, ok := v.atomicCall(x); ok {
+			if method == "Load" && len(args) == 0 {
+				return name, typ
+			}
+			die("atomic operation %s is only supported as a statement or as `return X.Inc()`", src(e))
+		}
+		if sel, ok := x.Fun.(*ast.SelectorExpr); ok && len(x.Args) == 0 && sel.Sel.Name == "Nanoseconds" {
+			// time.Duration.Nanoseconds() is int64(d)
+			r, t := v.expr(sel.X, "time.Duration")
+			if t == "time.Duration" || t == "Duration" {
+				return r, "int64"
+			}
+			die("Nanoseconds() on a non-Duration %s", src(e))
+		}
 		// conversion T(x)
 		fn := src(x.Fun)
 		if _, ok := leanTy[fn]; ok && len(x.Args) == 1 {
@@ -386,8 +516,29 @@ func (v *env) block(stmts []ast.Stmt, k string, ind string) string {
 	}
 	switch x := s.(type) {
 	case *ast.ReturnStmt:
+		if len(x.Results) > 1 {
+			if len(v.retTypes) != len(x.Results) {
+				die("return arity mismatch in %s", src(x))
+			}
+			var parts []string
+			for i, re := range x.Results {
+				r, t := v.expr(re, v.retTypes[i])
+				if t != "untyped" && lty(t) != lty(v.retTypes[i]) {
+					die("return type mismatch in %s", src(x))
+				}
+				parts = append(parts, r)
+			}
+			return v.withState("(" + strings.Join(parts, ", ") + ")")
+		}
 		if len(x.Results) != 1 {
 			die("only single-value return supported")
+		}
+		if name, typ, method, args, ok := v.atomicCall(x.Results[0]); ok && method != "Load" {
+			nv := v.atomicUpdate(name, typ, method, args, src(x))
+			if v.ret != "" && lty(typ) != lty(v.ret) {
+				die("return type mismatch %s vs %s", typ, v.ret)
+			}
+			return fmt.Sprintf("let %s : %s := %s\n%s%s", name, lty(typ), nv, ind, v.withState(name))
 		}
 		if v.retIdx {
 			ie, ok := x.Results[0].(*ast.IndexExpr)
@@ -411,7 +562,56 @@ func (v *env) block(stmts []ast.Stmt, k string, ind string) string {
 		if v.ret != "" && lty(t) != lty(v.ret) {
 			die("return type mismatch %s vs %s", t, v.ret)
 		}
-		return r
+		return v.withState(r)
+	case *ast.ExprStmt:
+		if name, typ, method, args, ok := v.atomicCall(x.X); ok && method != "Load" {
+			nv := v.atomicUpdate(name, typ, method, args, src(x))
+			return fmt.Sprintf("let %s : %s := %s\n%s%s", name, lty(typ), nv, ind, v.block(rest, k, ind))
+		}
+		die("unsupported expression statement: %s", src(x))
+	case *ast.SwitchStmt:
+		if x.Init != nil {
+			y := *x
+			y.Init = nil
+			return v.block(append([]ast.Stmt{x.Init, &y}, rest...), k, ind)
+		}
+		// switch -> if chain; the default clause goes last wherever it was written
+		var chain ast.Stmt
+		var clauses []*ast.CaseClause
+		var def *ast.CaseClause
+		for _, c := range x.Body.List {
+			cc := c.(*ast.CaseClause)
+			if cc.List == nil {
+				def = cc
+			} else {
+				clauses = append(clauses, cc)
+			}
+		}
+		if def != nil {
+			chain = &ast.BlockStmt{List: def.Body}
+		}
+		for i := len(clauses) - 1; i >= 0; i-- {
+			cc := clauses[i]
+			var cond ast.Expr
+			for _, ce := range cc.List {
+				var one ast.Expr = ce
+				if x.Tag != nil {
+					one = &ast.BinaryExpr{X: x.Tag, Op: token.EQL, Y: ce}
+				}
+				if cond == nil {
+					cond = one
+				} else {
+					cond = &ast.BinaryExpr{X: cond, Op: token.LOR, Y: one}
+				}
+			}
+			chain = &ast.IfStmt{Cond: cond, Body: &ast.BlockStmt{List: cc.Body}, Else: chain}
+		}
+		if chain == nil {
+			return v.block(rest, k, ind)
+		}
+		return v.block(append([]ast.Stmt{chain}, rest...), k, ind)
+	case *ast.ForStmt:
+		return v.forLoop(x, rest, k, ind)
 	case *ast.AssignStmt:
 		if len(x.Lhs) != 1 || len(x.Rhs) != 1 {
 			die("only single assignment supported: %s", src(x))
@@ -470,16 +670,24 @@ func (v *env) block(stmts []ast.Stmt, k string, ind string) string {
 		return fmt.Sprintf("let %s : %s := %s %s 1\n%s%s", id.Name, lty(vt), id.Name, op, ind, v.block(rest, k, ind))
 	case *ast.IfStmt:
 		if x.Init != nil {
-			die("if with init not supported")
+			y := *x
+			y.Init = nil
+			return v.block(append([]ast.Stmt{x.Init, &y}, rest...), k, ind)
 		}
 		c, _ := v.expr(x.Cond, "bool")
-		kk := v.block(rest, k, ind+"  ")
+		kk := ""
+		if len(rest) > 0 || k != "" {
+			kk = v.block(rest, k, ind+"  ")
+		}
 		saved := copyVars(v.vars)
 		thenB := v.block(x.Body.List, kk, ind+"  ")
 		v.vars = copyVars(saved)
 		var elseB string
 		switch el := x.Else.(type) {
 		case nil:
+			if kk == "" {
+				die("control reaches end of function without return")
+			}
 			elseB = kk
 		case *ast.BlockStmt:
 			elseB = v.block(el.List, kk, ind+"  ")
@@ -511,6 +719,148 @@ func (v *env) block(stmts []ast.Stmt, k string, ind string) string {
 	}
 	die("unsupported statement: %s (%T)", src(s), s)
 	return ""
+}
+
+// forLoop: `for i := a; i < n; i++ { body }` (also <=, i += c) with a body free of return/break/continue.
+// The loop becomes `let rec loopN (fuel : Nat) (i) (state..) := match fuel with | 0 => state | fuel+1 =>
+// if cond then body; loopN fuel (post i) state' else state`, called with the target's fuel parameter.
+func (v *env) forLoop(x *ast.ForStmt, rest []ast.Stmt, k string, ind string) string {
+	if v.fuel == "" {
+		die("for loop needs a \"fuel\" parameter in the spec")
+	}
+	init, ok := x.Init.(*ast.AssignStmt)
+	if !ok || init.Tok != token.DEFINE || len(init.Lhs) != 1 || x.Cond == nil || x.Post == nil {
+		die("unsupported for loop shape: %s", src(x))
+	}
+	iv := init.Lhs[0].(*ast.Ident).Name
+	initE, it := v.expr(init.Rhs[0], "int")
+	if it == "untyped" {
+		initE, it = v.expr(init.Rhs[0], "int")
+		it = "int"
+	}
+	set := map[string]bool{}
+	assigned(x.Body.List, v, set)
+	delete(set, iv)
+	var st []string
+	for name := range set {
+		if _, ok := v.vars[name]; !ok {
+			die("loop assigns unknown variable %s", name)
+		}
+		st = append(st, name)
+	}
+	sortStrings(st)
+	saved := copyVars(v.vars)
+	v.vars[iv] = it
+	v.loops++
+	fn := fmt.Sprintf("loop%d", v.loops)
+	tuple := func(names []string) string {
+		if len(names) == 0 {
+			return "()"
+		}
+		if len(names) == 1 {
+			return names[0]
+		}
+		return "(" + strings.Join(names, ", ") + ")"
+	}
+	var params, tys []string
+	params = append(params, fmt.Sprintf("(%s : %s)", iv, lty(it)))
+	for _, n := range st {
+		params = append(params, fmt.Sprintf("(%s : %s)", n, lty(v.vars[n])))
+		tys = append(tys, lty(v.vars[n]))
+	}
+	rty := "Unit"
+	if len(tys) > 0 {
+		rty = strings.Join(tys, " × ")
+	}
+	cond, _ := v.expr(x.Cond, "bool")
+	in2 := ind + "      "
+	// post statement is appended to the body; the continuation is the recursive call
+	call := fn + " fuel " + iv
+	for _, n := range st {
+		call += " " + n
+	}
+	body := v.block(append(append([]ast.Stmt{}, x.Body.List...), x.Post), call, in2)
+	v.vars = saved
+	cont := v.block(rest, k, ind)
+	bind := tuple(st)
+	callInit := fn + " " + v.fuel + " " + initE
+	for _, n := range st {
+		callInit += " " + n
+	}
+	res := fmt.Sprintf("let rec %s (fuel : Nat) %s : %s :=\n%s  match fuel with\n%s  | 0 => %s\n%s  | fuel + 1 =>\n%s    if %s then\n%s      %s\n%s    else\n%s      %s\n%s",
+		fn, strings.Join(params, " "), rty, ind, ind, tuple(st), ind, ind, cond, ind, body, ind, ind, tuple(st), ind)
+	if len(st) == 0 {
+		return res + cont
+	}
+	return res + fmt.Sprintf("let %s := %s\n%s%s", bind, callInit, ind, cont)
+}
+
+// addExtras registers atomics, the state list and the fuel parameter; returns the extra parameters.
+func (v *env) addExtras(t target) []string {
+	var params []string
+	v.atomics = map[string][2]string{}
+	for _, fv := range t.FieldVars {
+		v.state = append(v.state, fv[1])
+	}
+	for _, a := range t.Atomics {
+		v.atomics[a[0]] = [2]string{a[1], a[2]}
+		v.vars[a[1]] = a[2]
+		v.state = append(v.state, a[1])
+		params = append(params, fmt.Sprintf("(%s : %s)", a[1], lty(a[2])))
+	}
+	if t.Fuel != "" {
+		v.fuel = t.Fuel
+		params = append(params, fmt.Sprintf("(%s : Nat)", t.Fuel))
+	}
+	return params
+}
+
+// newEnv builds the environment of the kinds that have no Go signature (block, if_cond).
+func newEnv(t target, consts map[string]constInfo) (*env, []string) {
+	v := &env{vars: map[string]string{}, binds: map[string][2]string{}, consts: consts, skip: map[string]bool{}}
+	var params []string
+	for _, b := range t.Binds {
+		v.binds[b[0]] = [2]string{b[1], b[2]}
+		params = append(params, fmt.Sprintf("(%s : %s)", b[1], lty(b[2])))
+	}
+	for _, sk := range t.Skip {
+		v.skip[sk] = true
+	}
+	for _, fv := range t.FieldVars {
+		v.binds[fv[0]] = [2]string{fv[1], fv[2]}
+		v.vars[fv[1]] = fv[2]
+		params = append(params, fmt.Sprintf("(%s : %s)", fv[1], lty(fv[2])))
+	}
+	v.fvars = t.FieldVars
+	params = append(params, v.addExtras(t)...)
+	return v, params
+}
+
+// blockThen translates stmts and then the Bool expression e in the scope they leave.
+func (v *env) blockThen(stmts []ast.Stmt, e ast.Expr, ind string) string {
+	if len(stmts) == 0 {
+		c, _ := v.expr(e, "bool")
+		return c
+	}
+	as, ok := stmts[0].(*ast.AssignStmt)
+	if !ok || as.Tok != token.DEFINE || len(as.Lhs) != 1 || len(as.Rhs) != 1 {
+		die("unsupported init statement %s", src(stmts[0]))
+	}
+	id := as.Lhs[0].(*ast.Ident)
+	rhs, t := v.expr(as.Rhs[0], "")
+	if t == "untyped" {
+		rhs, t = v.expr(as.Rhs[0], "int")
+	}
+	v.vars[id.Name] = t
+	return fmt.Sprintf("let %s : %s := %s\n%s%s", id.Name, lty(t), rhs, ind, v.blockThen(stmts[1:], e, ind))
+}
+
+func sortStrings(a []string) {
+	for i := 1; i < len(a); i++ {
+		for j := i; j > 0 && a[j] < a[j-1]; j-- {
+			a[j], a[j-1] = a[j-1], a[j]
+		}
+	}
 }
 
 func (v *env) hint(string) string { return "" }
@@ -567,6 +917,24 @@ func pkgConsts(dir string) map[string]constInfo {
 	if err != nil {
 		die("parse dir %s: %v", dir, err)
 	}
+	// named integer types (type routerKind int): constants of such a type take the underlying type
+	named := map[string]string{}
+	for _, p := range pkgs {
+		for _, f := range p.Files {
+			for _, d := range f.Decls {
+				gd, ok := d.(*ast.GenDecl)
+				if !ok || gd.Tok != token.TYPE {
+					continue
+				}
+				for _, s := range gd.Specs {
+					ts := s.(*ast.TypeSpec)
+					if u := src(ts.Type); leanTy[u] != "" && u != "bool" {
+						named[ts.Name.Name] = u
+					}
+				}
+			}
+		}
+	}
 	for _, p := range pkgs {
 		for _, f := range p.Files {
 			for _, d := range f.Decls {
@@ -574,17 +942,37 @@ func pkgConsts(dir string) map[string]constInfo {
 				if !ok || gd.Tok != token.CONST {
 					continue
 				}
-				for _, s := range gd.Specs {
+				// Go repeats the previous expression list (and type) for specs without values; iota = spec index
+				var lastVals []ast.Expr
+				var lastType ast.Expr
+				for si, s := range gd.Specs {
 					vs := s.(*ast.ValueSpec)
+					vals, vtype := vs.Values, vs.Type
+					if len(vals) == 0 {
+						vals, vtype = lastVals, lastType
+					} else {
+						lastVals, lastType = vals, vtype
+					}
 					for i, n := range vs.Names {
-						if i >= len(vs.Values) {
+						if i >= len(vals) {
 							continue
 						}
 						typ := ""
-						if vs.Type != nil {
-							typ = src(vs.Type)
+						if vtype != nil {
+							typ = src(vtype)
+							if u, ok := named[typ]; ok {
+								typ = u
+							}
 						}
-						if val, ok := constEval(vs.Values[i], out); ok {
+						prev, had := out["iota"]
+						out["iota"] = constInfo{val: fmt.Sprint(si)}
+						val, ok := constEval(vals[i], out)
+						if had {
+							out["iota"] = prev
+						} else {
+							delete(out, "iota")
+						}
+						if ok {
 							if _, known := leanTy[typ]; typ != "" && !known {
 								continue
 							}
@@ -709,22 +1097,57 @@ func main() {
 			}
 			v.fvars = t.FieldVars
 			v.retIdx = t.ReturnIndex
-			if fd.Type.Results == nil || len(fd.Type.Results.List) != 1 {
-				die("%s: exactly one result required", t.Func)
+			params = append(params, v.addExtras(t)...)
+			if fd.Type.Results == nil || len(fd.Type.Results.List) < 1 {
+				die("%s: at least one result required", t.Func)
+			}
+			var resTypes []string
+			for _, fld := range fd.Type.Results.List {
+				cnt := len(fld.Names)
+				if cnt == 0 {
+					cnt = 1
+				}
+				for i := 0; i < cnt; i++ {
+					resTypes = append(resTypes, src(fld.Type))
+				}
 			}
 			retTy := ""
 			if t.ReturnIndex {
+				if len(resTypes) != 1 {
+					die("%s: exactly one result required", t.Func)
+				}
 				parts := []string{"Int64"}
 				for _, fv := range t.FieldVars {
 					parts = append(parts, lty(fv[2]))
 				}
 				retTy = strings.Join(parts, " × ")
-			} else {
-				v.ret = src(fd.Type.Results.List[0].Type)
+			} else if len(resTypes) == 1 {
+				v.ret = resTypes[0]
 				if t.Ret != "" {
 					v.ret = t.Ret
 				}
 				retTy = lty(v.ret)
+			} else {
+				v.retTypes = resTypes
+				var parts []string
+				for _, rt := range resTypes {
+					parts = append(parts, lty(rt))
+				}
+				retTy = strings.Join(parts, " × ")
+			}
+			if t.ReturnState {
+				if t.ReturnIndex {
+					die("return_state and return_index are exclusive")
+				}
+				v.retState = true
+				parts := []string{retTy}
+				if len(resTypes) > 1 {
+					parts = []string{"(" + retTy + ")"}
+				}
+				for _, n := range v.state {
+					parts = append(parts, lty(v.vars[n]))
+				}
+				retTy = strings.Join(parts, " × ")
 			}
 			body := v.block(fd.Body.List, "", "  ")
 			fmt.Fprintf(&out, "/-- Go: func %s (%s) -/\ndef %s %s : %s :=\n  %s\n\n", t.Func, t.File, t.Lean, strings.Join(params, " "), retTy, body)
@@ -755,6 +1178,84 @@ func main() {
 			}
 			e, ty := v.expr(idx, "int")
 			fmt.Fprintf(&out, "/-- Go: index expression `%s` of the return in %s (%s) -/\ndef %s %s : %s :=\n  %s\n\n", src(idx), t.Func, t.File, t.Lean, strings.Join(params, " "), lty(ty), e)
+		case "block":
+			fd := findFunc(f, t.Func)
+			if fd == nil {
+				die("function %s not found in %s", t.Func, t.File)
+			}
+			var body []ast.Stmt
+			n := 0
+			ast.Inspect(fd.Body, func(nd ast.Node) bool {
+				if cc, ok := nd.(*ast.CaseClause); ok {
+					for _, e := range cc.List {
+						if src(e) == t.Case {
+							body = cc.Body
+							n++
+						}
+					}
+				}
+				return true
+			})
+			if n != 1 {
+				die("%s: expected exactly one `case %s`, found %d", t.Func, t.Case, n)
+			}
+			if len(t.Results) == 0 {
+				die("block target needs \"results\"")
+			}
+			v, params := newEnv(t, consts)
+			k := t.Results[0]
+			if len(t.Results) > 1 {
+				k = "(" + strings.Join(t.Results, ", ") + ")"
+			}
+			text := v.block(body, k, "  ")
+			var tys []string
+			for _, r := range t.Results {
+				gt, ok := v.vars[r]
+				if !ok {
+					die("block result %s is not a variable at the end of `case %s`", r, t.Case)
+				}
+				tys = append(tys, lty(gt))
+			}
+			fmt.Fprintf(&out, "/-- Go: body of `case %s` in %s (%s) -/\ndef %s %s : %s :=\n  %s\n\n", t.Case, t.Func, t.File, t.Lean, strings.Join(params, " "), strings.Join(tys, " × "), text)
+		case "if_cond":
+			fd := findFunc(f, t.Func)
+			if fd == nil {
+				die("function %s not found in %s", t.Func, t.File)
+			}
+			var hit *ast.IfStmt
+			n := 0
+			ast.Inspect(fd.Body, func(nd ast.Node) bool {
+				if is, ok := nd.(*ast.IfStmt); ok && strings.Contains(src(is.Cond), t.Match) {
+					hit = is
+					n++
+				}
+				return true
+			})
+			if n != 1 {
+				die("%s: expected exactly one `if` whose condition contains %q, found %d", t.Func, t.Match, n)
+			}
+			v, params := newEnv(t, consts)
+			var tnames []string
+			for name := range t.Types {
+				tnames = append(tnames, name)
+			}
+			sortStrings(tnames)
+			for _, name := range tnames {
+				v.vars[name] = t.Types[name]
+				params = append(params, fmt.Sprintf("(%s : %s)", name, lty(t.Types[name])))
+			}
+			text := ""
+			if hit.Init == nil {
+				text, _ = v.expr(hit.Cond, "bool")
+			} else {
+				// the condition is the continuation of the init statement
+				v2, _ := newEnv(t, consts)
+				for name, gt := range t.Types {
+					v2.vars[name] = gt
+				}
+				text = v2.blockThen([]ast.Stmt{hit.Init}, hit.Cond, "  ")
+			}
+			fmt.Fprintf(&out, "/-- Go: condition `%s` of an if in %s (%s) -/\ndef %s %s : Bool :=\n  %s\n\n", src(hit.Cond), t.Func, t.File, t.Lean, strings.Join(params, " "), text)
 		default:
 			die("unknown target kind %q", t.Kind)
 		}
